@@ -724,7 +724,7 @@ for fields, name, dim in specs:
         stale = len(g) != len(set(g)) or (("x" in g) and ("rho" in g))
         momentum_named_input = any(f in gen for f in fields)
         if got_dim != want_dim or stale or [f for f in ak.fields(r) if f not in COORD_FIELDS] != extras:
-            key = "awkward-raw-momentum-fields" if momentum_named_input and (got_dim != want_dim or stale) else "raw-record:" + m
+            key = ("raw-record-stale:" if momentum_named_input and (got_dim != want_dim or stale) else "raw-record:") + m
             out.append([key, "%%s on raw %%s%%s returns %%s with fields %%s" %% (m, name, list(fields), type(r).__name__, ak.fields(r))])
 print("JSON" + json.dumps([n, out]))
 """
@@ -893,6 +893,36 @@ def c19_run(ctx):
                     problems.append((f"layout-raises:{lname_}", f"{fl}:{sig} fields {[f_ for f_, _ in fields]}: {type(ex).__name__}: {str(ex)[:80]}"))
             if len(samples) < 2:
                 samples.append({"sig": sig, "flavor": fl, "dtype": str(a.dtype), "element0": rows[0]})
+    # element dtypes WIDER than float64's 53-bit mantissa (int64 / uint64 beyond 2**53, numpy.longdouble): the object returned by an integer
+    # index holds exactly the stored element (compared in the element's own dtype, never through float())
+    wide = [("int64", numpy.int64, [2**53 + 1, -(2**53) - 3, 2**62 + 1, 7]), ("uint64", numpy.uint64, [2**64 - 1, 2**53 + 1, 2**63 + 5, 3]),
+            ("longdouble", numpy.longdouble, [numpy.longdouble(1) + numpy.finfo(numpy.longdouble).eps, numpy.longdouble(2) / 3, numpy.longdouble(-5) / 7, numpy.longdouble(0.5)])]
+    for sig in [s_ for s_ in sigs if all(q in ("xy", "z", "t") for q in s_)] + [s_ for s_ in sigs if s_[0] == "rhophi"][:3]:
+        dim = len(sig) + 1
+        for fl in "gm":
+            names = C.field_names(fl, sig)
+            vcls = {True: {2: vector.MomentumNumpy2D, 3: vector.MomentumNumpy3D, 4: vector.MomentumNumpy4D},
+                    False: {2: vector.VectorNumpy2D, 3: vector.VectorNumpy3D, 4: vector.VectorNumpy4D}}[fl == "m"][dim]
+            for dname, dt_, vals in wide:
+                raw = numpy.zeros(4, dtype=[(nm_, dt_) for nm_ in names])
+                for j, nm_ in enumerate(names):
+                    raw[nm_] = vals[j % 4:] + vals[:j % 4]
+                cols = [raw[nm_].copy() for nm_ in names]        # (taken before the view: a momentum view renames the shared dtype in place - known finding)
+                for shape in ((4,), (2, 2)):
+                    va = raw.reshape(shape).view(vcls)
+                    for idx in numpy.ndindex(*shape):
+                        n += 1
+                        try:
+                            e = va[idx]
+                            got = C.stored(e)
+                        except Exception as ex:  # noqa: BLE001
+                            problems.append((f"int-index-wide-raises:{dname}", f"{fl}:{sig} {dname} {shape} index {idx}: {type(ex).__name__}: {str(ex)[:60]}"))
+                            continue
+                        want = [c_.reshape(shape)[idx] for c_ in cols]
+                        same = all((int(g) == int(w) and float(g) == float(w)) if dname != "longdouble" else numpy.longdouble(g) == w for g, w in zip(got, want))
+                        if not same:
+                            problems.append((f"int-index-wide:{dname}", f"{fl}:{sig} array with {dname} fields, shape {shape}, index {idx}: object stores {[repr(g) for g in got]}, "
+                                                                        f"the element is {[repr(w) for w in want]}"))
     hp, hn = c19_histories(ctx)
     problems += hp
     return problems, {"index_expressions": n, "history_steps": hn}, samples
